@@ -18,6 +18,7 @@ import re
 from ..core import Infra, Prop, Violation, import_repo, hexs, unhexs
 
 FINDING = "C12-values-reinterpreted"
+FINDING_SCAN = "C12-required-scan-ignores-structure"
 
 # ----------------------------------------------------------------------------------------------------------
 # the documented grammar, as ONE left-to-right tokenizer (independent of the implementation's four passes)
@@ -148,12 +149,15 @@ def expand(segs, env, loop=None, depth=0):
                 else:
                     out.append(s[-1])
             else:
+                if n in ctx and WORD.match(a):
+                    env.setdefault("notices", []).append(a)      # "no such filter" notice, not a missing variable
                 out.append(ctx[n]["text"] if n in ctx else a)
         elif k == "inc":
             n = s[1]
             if n in env["templates"]:
                 if depth >= 8:
                     raise OutOfGrammar("include cycle / too deep")
+                env.setdefault("reached", []).append(env["templates"][n])
                 out.append(expand(parse(env["templates"][n]), env, None, depth + 1))
             else:
                 out.append(env["marker"](n))
@@ -551,7 +555,14 @@ class C12(Prop):
                 yield idx, op, unhexs(t[1]), t[2] == "1", dict(templates), ab, fres, filters
 
     def oracle(self, case, obs, extra):
-        out = []
+        """The property text on the real code's observations.  Every violation also gets the id of the open known
+        finding that could explain it (None = none can); `trigger` reads that list back."""
+        out, attrib = [], []
+        brace = self._brace_trigger(case)
+
+        def add(v, finding):
+            out.append(v)
+            attrib.append(finding)
         for idx, op, arg, strict, templates, ab, fres, filters in self._walk(case):
             o = obs[idx]
             if op == "translate":
@@ -564,9 +575,9 @@ class C12(Prop):
             for (f, n), (k, r) in fres.items():
                 meth = {"upper": str.upper, "lower": str.lower, "trim": str.strip, "title": str.title}.get(f)
                 if meth is not None and n in ab and (k != "o" or r != meth(ab[n]["text"])):
-                    out.append(Violation("builtin_filter", f"{f}({ab[n]['text']!r}) = {meth(ab[n]['text'])!r}", f"{k}:{r!r}", idx))
+                    add(Violation("builtin_filter", f"{f}({ab[n]['text']!r}) = {meth(ab[n]['text'])!r}", f"{k}:{r!r}", idx), None)
             env = {"ctx": ab, "templates": templates, "filters": set(filters), "fres": fres, "missing": [],
-                   "marker": lambda n: self.marker[0] + n + self.marker[1]}
+                   "notices": [], "reached": [src], "marker": lambda n: self.marker[0] + n + self.marker[1]}
             try:
                 segs = parse(src)
                 for k_ in ab.values():
@@ -583,38 +594,60 @@ class C12(Prop):
                 continue
             # marker: explicit, names the template, is not the tag itself
             if not self.marker[0] + self.marker[1] or "{{" in self.marker[0] + self.marker[1]:
-                out.append(Violation("unknown_include_marker", "an explicit marker naming the template", repr(self.marker), idx))
+                add(Violation("unknown_include_marker", "an explicit marker naming the template", repr(self.marker), idx), None)
             if want_raise is not None:
                 if not o.startswith("raise:"):
                     clause = "strict_missing_is_error" if strict and env["missing"] else "filter_error_propagates"
-                    out.append(Violation(clause, f"raise ({want_raise})", o, idx))
+                    add(Violation(clause, f"raise ({want_raise})", o, idx), brace)
                 continue
             missing = env["missing"]
+            # `{{name}}` slots the expansion never looked up in the context although they are unbound there: loop
+            # variables, slots of a loop that ran zero times, slots of the branch not taken (trigger of FINDING_SCAN)
+            unevaluated_top = [n for n in static_vars(src) if n not in ab and n not in missing]
+            unevaluated_reached = [n for s_ in env["reached"] for n in static_vars(s_) if n not in ab and n not in missing]
             if strict:
-                static = set(static_vars(src))
-                for s_ in templates.values():
-                    static |= set(static_vars(s_))
-                static_missing = [n for n in static if n not in ab]
                 if missing:
                     if o != "raise:ValueError":
-                        out.append(Violation("strict_missing_is_error", f"ValueError (missing {missing})", o, idx))
+                        add(Violation("strict_missing_is_error", f"ValueError (missing {missing})", o, idx), brace)
                     continue
-                if o == "raise:ValueError" and static_missing:
-                    continue   # a variable slot of the template is unbound (in an untaken branch / loop variable): accepted
+                if o == "raise:ValueError":
+                    add(Violation("strict_error_without_missing_variable", f"text {want!r} (the expansion finds nothing unbound)",
+                                  o + f" (unbound slots never evaluated: {sorted(set(unevaluated_reached))})", idx),
+                        FINDING_SCAN if unevaluated_reached else brace)
+                    continue
             if o.startswith("raise:"):
-                out.append(Violation("renders", f"text {want!r}", o, idx))
+                add(Violation("renders", f"text {want!r}", o, idx), brace)
                 continue
             f = o.split(" ")
             got = unhexs(f[1])
             warned = [] if f[2] == "-" else [unhexs(x) for x in f[2].split(",")]
             if got != want:
-                out.append(Violation("one_left_to_right_expansion", repr(want), repr(got), idx))
+                add(Violation("one_left_to_right_expansion", repr(want), repr(got), idx), brace)
             for n in missing:
                 if n not in warned:
-                    out.append(Violation("missing_reported", f"warning naming {n!r}", f"warnings={warned}", idx))
+                    add(Violation("missing_reported", f"warning naming {n!r}", f"warnings={warned}", idx), brace)
+            for n in dict.fromkeys(warned):
+                if n not in missing and n not in env["notices"]:
+                    add(Violation("warning_for_variable_not_missing",
+                                  f"warnings name only variables the expansion found unbound: {sorted(set(missing))}",
+                                  f"warning naming {n!r}", idx),
+                        FINDING_SCAN if n in unevaluated_top else brace)
+        case["_attrib"] = attrib
         return out
 
     def trigger(self, case):
+        """Which open known finding explains this case's violations (set by `oracle`, which runs first on the same
+        case object).  FINDING_SCAN: the violation is a warning / strict error about a plain `{{name}}` slot, unbound
+        in the context, that the expansion never evaluates (loop-context key inside an each-block, each-block over an
+        empty/missing list, branch not taken).  FINDING: see `_brace_trigger`.  Any violation neither explains: None."""
+        a = case.get("_attrib")
+        if a is None:
+            return self._brace_trigger(case)
+        if not a or any(x is None for x in a):
+            return None
+        return FINDING_SCAN if FINDING_SCAN in a else FINDING
+
+    def _brace_trigger(self, case):
         """a bound value / loop item / default / filter result contains `{` or `}` — or template plain text has a
         segment ending in `{` and one starting in `{` (two halves of a delimiter that meet when what lies between
         renders to nothing)."""
